@@ -349,3 +349,37 @@ Example C15_gen_example :
 Proof. vm_compute. first [exact I | reflexivity]. Qed.
 
 End GenAgreeMeasures_C15.
+
+(* ---- WIRING-APPENDIX:BEGIN (generated by tools/gen_wiring_props.py; do not edit) ---- *)
+From CC Require Proofs.GenAgreeWiring_C15.
+Section Wiring_C15.
+Import Coq.Lists.List Coq.ZArith.ZArith Coq.Strings.String CC.Base.WiringExp CC.Gen.WiringSrc.
+Import ListNotations.
+Local Open Scope string_scope.
+
+Theorem C15_wiring_Slice_column_share_sum :
+  wsrc_Slice_column_share_sum = Some (WTryValueError (w_matrix_of "column_share_sum")
+      "`.column_share_sum` is undefined for a cube-result without a sum measure").
+Proof. exact Proofs.GenAgreeWiring_C15.gen_wiring_Slice_column_share_sum. Qed.
+Print Assumptions C15_wiring_Slice_column_share_sum.
+
+Theorem C15_wiring_Slice_row_share_sum :
+  wsrc_Slice_row_share_sum = Some (WTryValueError (w_matrix_of "row_share_sum") "`.row_share_sum` is
+      undefined for a cube-result without a sum measure").
+Proof. exact Proofs.GenAgreeWiring_C15.gen_wiring_Slice_row_share_sum. Qed.
+Print Assumptions C15_wiring_Slice_row_share_sum.
+
+Theorem C15_wiring_Slice_total_share_sum :
+  wsrc_Slice_total_share_sum = Some (WTryValueError (w_matrix_of "total_share_sum")
+      "`.total_share_sum` is undefined for a cube-result without a sum measure").
+Proof. exact Proofs.GenAgreeWiring_C15.gen_wiring_Slice_total_share_sum. Qed.
+Print Assumptions C15_wiring_Slice_total_share_sum.
+
+Theorem C15_wiring_Strand_share_sum :
+  wsrc_Strand_share_sum = Some (WTryValueError (w_vector_of "share_sum") "`.share_sum` is undefined
+      for a cube-result without a sum measure").
+Proof. exact Proofs.GenAgreeWiring_C15.gen_wiring_Strand_share_sum. Qed.
+Print Assumptions C15_wiring_Strand_share_sum.
+
+End Wiring_C15.
+(* ---- WIRING-APPENDIX:END ---- *)
